@@ -186,6 +186,12 @@ def real_run(c, outputfile=None):
     kw = {}
     if "vec" in c:
         kw["qvector"] = np.array(c["vec"], dtype=np.int64).reshape(len(c["vec"]), c["d"])
+        # options that are documented as ignored when the wave vectors are supplied must be ignored: a value chosen from the list itself
+        import zlib
+        k = zlib.crc32(repr(c["vec"]).encode()) % 5
+        if k:
+            kw["onlypositive"] = [None, True, "x", False, "z"][k]
+            kw["qrange"] = [None, 3.0, 12.5, 0.5, 7.0][k]
     else:
         kw["qrange"] = float(c["qrange"])
         kw["onlypositive"] = {"F": False, "T": True}.get(c["onlypos"], c["onlypos"])
